@@ -1,12 +1,212 @@
 import GrinVerif.Drv.Common
-/-! Driver glue for the `store` domain (line protocol handler). -/
+import GrinVerif.Model.Store
+/-! Driver glue for the `store` domain (property C08).
+
+Every line is answered three ways: by the implementation (the text after `=>`), by the model
+backend (`GV.Store.PM` over the model files / leaf set / prune list) and – where the property
+fixes the value – by the **reference**: an unpruned Vec MMR (`GV.Pmmr.push`) over the same leaf
+history plus the set of unspent leaf positions.  Implementation ≠ reference is a `FAIL`
+(the property's oracle violated on a concrete history); implementation ≠ model is a `DIFF`. -/
 namespace GV.Drv.StoreD
-open GV GV.Drv
+open GV GV.Pmmr GV.Store GV.Drv
+
+/-- the real hash shapes: `(idx, elem).hash()` and `(idx, (l, r)).hash()` -/
+def realHF : HashFn Bytes Bytes where
+  leaf := fun i e => h256 (beBytes 8 i ++ e)
+  node := fun i l r => h256 (beBytes 8 i ++ l ++ r)
+
+/-- harness' variable-size element: one length byte, then that many bytes -/
+def varElemLen : Bytes → Option Nat
+  | [] => none
+  | n :: rest => if rest.length ≥ n then some (n + 1) else none
+
+/-- the unpruned reference -/
+structure Ref where
+  hashes : List Bytes := []
+  /-- leaf data in insertion order -/
+  datas : List Bytes := []
+  /-- unspent leaf positions (0-based), ascending -/
+  unspent : List Nat := []
+  /-- committed block boundaries on the current history: (size, unspent set then) -/
+  snaps : List (Nat × List Nat) := []
 
 structure St where
-  dummy : Unit := ()
+  pm : PM Bytes := {}
+  ref : Ref := {}
+  refC : Ref := {}
+  sizeC : Nat := 0
+  /-- state of the direct `PruneList` stream -/
+  pl : PruneList := {}
 
-def handle (st : St) (_args : List String) (_impl : String) : St × Verdict :=
-  (st, .unknown)
+def showPl (pl : PruneList) : String :=
+  s!"{showNatList pl.bitmap} {showNatList pl.shiftCache} {showNatList pl.leafShiftCache}"
+
+def showRoot : RootRes Bytes → String
+  | .zero => "zero"
+  | .ok h => toHex h
+  | .err => "err"
+
+def showOptHex : Option Bytes → String
+  | some b => toHex b
+  | none => "none"
+
+def showProof : Option (Nat × List Bytes) → String
+  | some (sz, path) => s!"{sz} {showHexList path}"
+  | none => "err"
+
+/-- spec verdict first, then model verdict -/
+def cmp2 (spec model impl : String) : Verdict :=
+  if spec ≠ impl then .fail spec else if model ≠ impl then .diff model else .ok
+
+namespace Ref
+
+def push (r : Ref) (e : Bytes) : Option Ref :=
+  match Pmmr.push realHF r.hashes e with
+  | none => none
+  | some hs => some { r with hashes := hs, datas := r.datas ++ [e], unspent := r.unspent ++ [r.hashes.length] }
+
+def isUnspent (r : Ref) (p : Nat) : Bool := r.unspent.elem p
+
+def rewind (r : Ref) (size : Nat) (rm1 : List Nat) : Ref :=
+  let size := roundUpToLeafPos size
+  let unspent := match r.snaps.find? (·.1 == size) with
+    | some s => s.2
+    | none => Bm.or (r.unspent.filter (· < size)) (rm1.map (· - 1))
+  { hashes := r.hashes.take size, datas := r.datas.take (nLeaves size), unspent := unspent,
+    snaps := r.snaps.filter (·.1 ≤ size) }
+
+def commit (r : Ref) : Ref :=
+  let size := r.hashes.length
+  { r with snaps := r.snaps.filter (·.1 < size) ++ [(size, r.unspent)] }
+
+def dataAt (r : Ref) (p : Nat) : Option Bytes :=
+  match pmmrLeafToInsertionIndex p with
+  | some i => r.datas[i]?
+  | none => none
+
+def getData (r : Ref) (p : Nat) : Option Bytes := if r.isUnspent p then r.dataAt p else none
+def getHash (r : Ref) (p : Nat) : Option Bytes := if r.isUnspent p then r.hashes[p]? else none
+
+end Ref
+
+/-- digest input over all leaves `< size`: `be8 pos ‖ data? ‖ hash?` -/
+def leafObsBytes (size : Nat) (getData getHash : Nat → Option Bytes) : Bytes :=
+  let n := nLeaves size
+  (List.range n).flatMap fun i =>
+    let p := insertionToPmmrIndex i
+    if p ≥ size then [] else
+    beBytes 8 p ++ (getData p).getD [] ++ (getHash p).getD []
+
+/-- positions whose hash the reference still needs: peaks and the Merkle-path siblings of
+every unspent leaf -/
+def neededPos (size : Nat) (unspent : List Nat) : List Nat :=
+  peaks size ++ unspent ++ unspent.flatMap fun p => (familyBranch p size).map (·.2)
+
+def handle (st : St) (args : List String) (impl : String) : St × Verdict :=
+  let el := varElemLen
+  match args with
+  | ["new", kind] =>
+    let df : DFile := if kind = "var" then .var {} else .fixed {}
+    ({ pm := { b := { dataFile := df }, size := 0 } }, cmpModel "ok" impl)
+  | ["push", e] => match parseHex e with
+    | none => (st, .unknown)
+    | some e =>
+      match st.ref.push e, st.pm.push realHF e with
+      | some r, some pm => ({ st with ref := r, pm := pm }, cmp2 (toString r.hashes.length) (toString pm.size) impl)
+      | some r, none => ({ st with ref := r }, cmp2 (toString r.hashes.length) "err" impl)
+      | none, some pm => ({ st with pm := pm }, cmp2 "err" (toString pm.size) impl)
+      | none, none => (st, cmp2 "err" "err" impl)
+  | ["prune", p] => match nat? p with
+    | none => (st, .unknown)
+    | some p =>
+      let spec := if !isLeaf p then "err" else showBool (st.ref.isUnspent p)
+      let r := { st.ref with unspent := st.ref.unspent.filter (· != p) }
+      match st.pm.prune p with
+      | none => ({ st with ref := r }, cmp2 spec "err" impl)
+      | some (pm, ok) => ({ st with ref := r, pm := pm }, cmp2 spec (showBool ok) impl)
+  | ["rewind", size, rm] => match nat? size, parseNatList rm with
+    | some size, some rm =>
+      let r := st.ref.rewind size rm
+      let pm := st.pm.rewind size (Bm.ofList rm)
+      ({ st with ref := r, pm := pm }, cmp2 (toString r.hashes.length) (toString pm.size) impl)
+    | _, _ => (st, .unknown)
+  | ["sync"] =>
+    let r := st.ref.commit
+    ({ st with pm := { st.pm with b := st.pm.b.sync }, ref := r, refC := r, sizeC := st.pm.size }, cmpModel "ok" impl)
+  | ["discard"] =>
+    ({ st with pm := { b := st.pm.b.discard, size := st.sizeC }, ref := st.refC }, cmpModel "ok" impl)
+  | ["compact", cutoff, rm] => match nat? cutoff, parseNatList rm with
+    | some cutoff, some rm =>
+      ({ st with pm := { st.pm with b := st.pm.b.checkCompact el cutoff (Bm.ofList rm) } }, cmpModel "ok" impl)
+    | _, _ => (st, .unknown)
+  | ["reopen"] =>
+    ({ st with pm := { st.pm with b := st.pm.b.reopen el } }, cmpModel "ok" impl)
+  -- observables fixed by the reference
+  | ["root"] => (st, cmp2 (showRoot (Pmmr.root realHF st.ref.hashes)) (showRoot (st.pm.root realHF)) impl)
+  | ["usize"] => (st, cmp2 (toString st.ref.hashes.length) (toString st.pm.b.unprunedSize) impl)
+  | ["nleaves"] => (st, cmp2 (toString st.ref.unspent.length) (toString st.pm.b.nUnprunedLeaves) impl)
+  | ["leaves"] => (st, cmp2 (showNatList st.ref.unspent) (showNatList st.pm.b.leafPosIter) impl)
+  | ["data", p] => match nat? p with
+    | some p => (st, cmp2 (showOptHex (st.ref.getData p)) (showOptHex (st.pm.getData el p)) impl)
+    | none => (st, .unknown)
+  | ["hash", p] => match nat? p with
+    | some p => (st, cmp2 (showOptHex (st.ref.getHash p)) (showOptHex (st.pm.getHash p)) impl)
+    | none => (st, .unknown)
+  | ["leafobs"] =>
+    let size := st.ref.hashes.length
+    let spec := leafObsBytes size st.ref.getData st.ref.getHash
+    let model := leafObsBytes st.pm.size (st.pm.getData el) st.pm.getHash
+    let hs := toHex (h256 spec)
+    let hm := if model = spec then hs else toHex (h256 model)
+    (st, cmp2 hs hm impl)
+  | ["proof", p] => match nat? p with
+    | some p =>
+      let spec := if st.ref.isUnspent p then Pmmr.merkleProof realHF st.ref.hashes p else none
+      (st, cmp2 (showProof spec) (showProof (st.pm.merkleProof realHF p)) impl)
+    | none => (st, .unknown)
+  -- internal observables (model only)
+  | ["usize_mid"] => (st, cmpModel (toString st.pm.b.unprunedSize) impl)
+  | ["node", p] => match nat? p with
+    | some p => (st, cmpModel (showOptHex (st.pm.getHash p)) impl)
+    | none => (st, .unknown)
+  | ["sizes"] =>
+    (st, cmpModel s!"{st.pm.b.hashSize} {st.pm.b.dataSize} {st.pm.b.pruneList.bitmap.length}" impl)
+  | ["file"] =>
+    -- `get_from_file` for every position: which are `None`, digest of the rest
+    let size := st.pm.size
+    let vals := (List.range size).map fun p => (p, st.pm.b.getFromFile p)
+    let nones := vals.filterMap fun x => if x.2.isNone then some x.1 else none
+    let cat := vals.flatMap fun x => x.2.getD []
+    let model := s!"{showNatList nones} {toHex (h256 cat)}"
+    if model ≠ impl then (st, .diff model) else
+    -- the implementation's answers are the model's; check them against the reference
+    let bad := vals.find? fun x => match x.2 with
+      | some h => st.ref.hashes[x.1]? != some h
+      | none => false
+    match bad with
+    | some x => (st, .fail s!"position {x.1} must read the reference hash")
+    | none =>
+      match (neededPos size st.ref.unspent).find? (fun p => nones.elem p) with
+      | some p => (st, .fail s!"position {p} is needed by the reference but reads None")
+      | none => (st, .ok)
+  | ["prunelist"] =>
+    -- `PruneList::open` on the prune file of the directory
+    let pl := PruneList.openBm st.pm.b.pruneFile
+    (st, cmpModel (showPl pl) impl)
+  -- direct `PruneList` stream
+  | ["pl_new"] => ({ st with pl := {} }, .ok)
+  | ["pl_append", p] => match nat? p with
+    | some p => let pl := st.pl.append p; ({ st with pl := pl }, cmpModel (showPl pl) impl)
+    | none => (st, .unknown)
+  | ["pl_q", p] => match nat? p with
+    | some p =>
+      let pl := st.pl
+      (st, cmpModel s!"{pl.getShift p} {pl.getLeafShift p} {showBool (pl.isPruned p)} {showBool (pl.isPrunedRoot p)}" impl)
+    | none => (st, .unknown)
+  | ["pl_total"] => (st, cmpModel s!"{st.pl.getTotalShift} {st.pl.getTotalLeafShift}" impl)
+  | ["pl_reopen"] =>
+    let pl := PruneList.openBm st.pl.bitmap
+    ({ st with pl := pl }, cmpModel (showPl pl) impl)
+  | _ => (st, .unknown)
 
 end GV.Drv.StoreD
